@@ -18,7 +18,7 @@ func init() {
 		ID:    "C16",
 		Title: "Shard and node placement is deterministic and replica-disjoint",
 		Decides: "the routing functions (ShardID, TraceShardID, Locator.Locate/Find, ApplyLocators, Hash, Entity.Marshal, the selector's Pick) reach no clock, random source, environment, or map iteration through static calls; the shard id is a remainder by the shard-count parameter on a path where zero has exited; " +
-			"every insertion into the selector's node list or lookup table (append or element write) is followed by a sort before the lock is released, both are accessed under the selector mutex, the lookup-table comparator is lex(group↑, shard↑) and the binary-search predicate of Pick is the matching lower bound; node insertion is idempotent (a name already present is not appended again) and table insertion is preceded by removal of the group's entries; the node index is (position+replica) mod the node count, unreachable with zero nodes; in the three liaison write loops a request that switches the metadata also resets the spec and the spec-derived tag locators in the same iteration (the shard of a write does not depend on the stream's history), and the measure sharding-key / entity locators are built from the schema's sharding-key / entity tag names respectively.",
+			"every insertion into the selector's node list or lookup table (append or element write) is followed by a sort before the lock is released, both are accessed under the selector mutex, the lookup-table comparator is lex(group↑, shard↑) and the binary-search predicate of Pick is the matching lower bound; node insertion is idempotent (a name already present is not appended again) and table insertion is preceded by removal of the group's entries; the node index is (position+replica) mod the node count, unreachable with zero nodes; in the three liaison write loops a request that switches the metadata also resets the spec and the spec-derived tag locators in the same iteration (the shard of a write does not depend on the stream's history), and the measure sharding-key / entity locators are built from the schema's sharding-key / entity tag names respectively.; the cached sharding-key locator of a measure tracks its current schema (every add-or-update event installs it or removes the stale one)",
 		NotDecided: "distinctness of replicas as arithmetic when fewer nodes than copies, convergence over event orders as a history claim, hash quality, dynamic (interface) callees of the routing functions.",
 		Technique:  "static call-graph unreachability of impure sinks; SSA shape of the modulo; CFG must-follow (sort after insert); must-lockset; comparator truth tables; guarded-insert (membership test dominates append); per-iteration path enumeration of paired loop-carried updates (metadata ⇒ spec/locators); SSA def-use of the locator sources",
 		Run:        runC16,
